@@ -587,6 +587,23 @@ fn handle(req: &J) -> Result<J, String> {
             };
             Ok(json!({"ok": true, "verdict": verdict}))
         }
+        "examples" => {
+            // the rule's own example documents (serde_yaml mappings) with the native verdict of each
+            let rule = match load(req) {
+                Ok(r) => r,
+                Err(e) => return Ok(json!({"ok": false, "err": e})),
+            };
+            let mut out = vec![];
+            for (kind, list) in [("tp", &rule.true_positives), ("tn", &rule.true_negatives)] {
+                for ex in list {
+                    if let Some(m) = ex.as_mapping() {
+                        let v = rule.matches(m);
+                        out.push(json!({"kind": kind, "doc": show_value(&Value::Object(m)), "verdict": v}));
+                    }
+                }
+            }
+            Ok(json!({"ok": true, "examples": out}))
+        }
         "validate" => {
             let rule = match load(req) {
                 Ok(r) => r,
